@@ -29,7 +29,15 @@ CHECK = {
                   "-race); each distinct report becomes a trace of its own with a Race event, which the trace specification "
                   "never accepts; a run-time crash of the workload (fatal error, e.g. concurrent map writes) becomes a Crash "
                   "event. A TLA+ model cannot observe memory-model races; this is said in DESIGN.md section 9 rather than "
-                  "hidden.",
+                  "hidden. (3) The life of one XA connection between its three owners - database/sql's pool, the resource "
+                  "manager's keeper and the hold-time checker - is specified with one action per holdMu critical section "
+                  "in XAHold.tla (closed at most once, never lost, a held connection stays open, keeper and flag agree; "
+                  "TLC, all interleavings, incl. termination; XAHold_Neg_SplitClose.cfg shows that a Close whose check "
+                  "and mark are two critical sections violates NoLeak). Every maximal call sequence TLC enumerates is "
+                  "stepped through a real XAConn and the abstract state after every call validated by TLC; the pool's "
+                  "IsValid+Close racing the keeper's release (then CloseForce) runs 200 000 (3 000 000) times on real "
+                  "goroutines and every distinct outcome must be reachable by some interleaving of the specification's "
+                  "critical sections.",
     "level_note": "Trusted: the Go race detector (finds only races the executed schedules expose), TLC, memsql, the "
                   "coordinator stand-in. Not in the workload: data sources opened while traffic runs, a client left "
                   "without any session, the XA hold-time checker firing (hold time is set to 'for ever'), load-balancer "
@@ -43,12 +51,22 @@ CHECK = {
                    "transaction and hung calls are events the trace specification (Concurrency_Trace.tla) rejects; outcomes "
                    "committed / rolledback / failed are all legal; the design-level accounting and liveness are "
                    "model-checked in Concurrency.tla.",
-    "mc": [("Concurrency", "Concurrency_MC.cfg", {"workers": 4})],
-    "mc_thorough": [("Concurrency", "Concurrency_MC.cfg", {"workers": 4}), ("Concurrency", "Concurrency_MCT.cfg", {"workers": 4})],
+    "mc": [("Concurrency", "Concurrency_MC.cfg", {"workers": 4}), ("XAHold", "XAHold_MC.cfg", {"workers": 1})],
+    "mc_thorough": [("Concurrency", "Concurrency_MC.cfg", {"workers": 4}), ("Concurrency", "Concurrency_MCT.cfg", {"workers": 4}),
+                    ("XAHold", "XAHold_MC.cfg", {"workers": 1})],
     "legs": [{
         "name": "stress", "driver": "stress", "race": True,
         "trace": ("Concurrency_Trace", "Concurrency_Trace.cfg"),
         "deterministic": False, "driver_timeout": 1200,
+    }, {
+        # the life of one XA connection between the pool, the keeper and the hold-time checker (XAHold.tla), one
+        # action per holdMu critical section: TLC's call sequences stepped through a real XAConn, and the pool's
+        # IsValid/Close racing the keeper's release 200 000 (thorough 3 000 000) times with the outcome validated as
+        # "reachable by some interleaving of the critical sections"; a rejection must come back in a full re-run
+        "name": "xahold", "driver": "xahold",
+        "gen": [("XAHold_Gen", "XAHold_Gen.cfg")],
+        "trace": ("XAHold_Trace", "XAHold_Trace.cfg"),
+        "repro_full": True, "driver_timeout": 600,
     }],
     "assumptions": ["a batch is quiescent when all measures are back to the pre-batch level, or nothing has moved for "
                     "2.5 s, or 8 s have passed",
